@@ -23,7 +23,7 @@ var (
 // reports the entry and distinct-query counts, --clear empties the log.
 func engineHistoryCLI(ctx *Ctx) {
 	r := vlib.NewRand(ctx.Seed, ctx.Shard, "history-cli")
-	n := ctx.N(48, 480)
+	n := ctx.N(48, 1600)
 	for i := 0; i < n; i++ {
 		base := filepath.Join(ctx.Scratch, fmt.Sprintf("hc%d", i))
 		h := NewHome(base)
